@@ -607,6 +607,8 @@ func (e *Engine) argReach(a ssa.Value, out map[string]bool) {
 		e.addrKeys(a, deref(a.Type()), out)
 		return
 	case *ssa.Alloc:
+		// an escaping local lives in the symbolic heap as an object of its type
+		e.allKeysOfType(a.Type(), out, 0)
 		return
 	}
 	switch u := a.Type().Underlying().(type) {
